@@ -295,7 +295,13 @@ def check_case(case, rec):
         dname = case['dist'] if case['dist'] in ('hexapolar', 'uniform', 'cross', 'ring', 'line_x', 'line_y') else 'hexapolar'
         nf, nr = 5, (max(2, min(6, case['n'])) if dname == 'hexapolar' else max(4, case['n']))
         rec.cls(f'vs-field-distribution-{dname}')
-        o = RmsWavefrontErrorVsField(lens, num_fields=nf, wavelengths=[wl], num_rays=nr, distribution=dname)
+        # (the judged wavelength is not the first of the analysed list when the lens has another one: every wavelength has
+        #  its own curve)
+        others = [float(w_[0]) for w_ in spec['wavelengths'] if float(w_[0]) != wl]
+        wl_list = [others[0], wl] if others else [wl]
+        col = len(wl_list) - 1
+        rec.cls('vs-field-two-wavelengths' if others else 'vs-field-one-wavelength')
+        o = RmsWavefrontErrorVsField(lens, num_fields=nf, wavelengths=wl_list, num_rays=nr, distribution=dname)
         got = np.asarray(o._wavefront_error, float)
         d = make_dist(dname, nr, 0)
         want, sane = [], []
@@ -308,7 +314,7 @@ def check_case(case, rec):
         if not np.all(np.isfinite(want)):
             rec.cls('pupil-has-lost-rays-rms-skipped')
             return
-        g = got.reshape(nf, -1)[:, 0]
+        g = got.reshape(nf, -1)[:, col]
         if not sane.all():
             rec.cls('field-points-with-rays-outside-the-reference-sphere-skipped')   # root not fixed by the statement there
         if not sane.any():
